@@ -132,7 +132,21 @@ pub fn own_history(contract: &str, m: &HashMap<String, String>) -> Value {
         }
         if res.is_ok() {
             match op {
-                0 => nomination = Some((arg.clone(), now + 604800)),
+                0 => {
+                    nomination = Some((arg.clone(), now + 604800));
+                    let (po, mt) = if contract == "treasury" {
+                        let s = treasury::state::STATE.load(&deps.storage).unwrap();
+                        (s.pending_owner.map(|a| a.to_string()), s.owner_transfer_min_time.map(|t| t.seconds()))
+                    } else {
+                        let s = staking::state::STATE.load(&deps.storage).unwrap();
+                        (s.pending_owner.map(|a| a.to_string()), s.owner_transfer_min_time.map(|t| t.seconds()))
+                    };
+                    if po.as_deref() != Some(arg.as_str()) || mt != Some(now + 604800) {
+                        reproduced = true;
+                        why = format!("step {i}: nomination stored pending_owner={po:?} lock={mt:?}, expected {arg} and {}", now + 604800);
+                        break;
+                    }
+                }
                 1 => nomination = None,
                 _ => {
                     if admin_after.as_deref() != Some(snd.as_str()) {
@@ -247,4 +261,20 @@ pub fn instantiate_period(m: &HashMap<String, String>) -> Value {
     let r = chain.tx("instantiate", &who.admin.clone(), &[], |d, e, i| staking::contract::instantiate(d, e, i, msg));
     let panicked = matches!(r, crate::world::Tx::Panic(_));
     json!({"reproduced": panicked, "outcome": r.detail(), "inputs": {"now": now, "batch_period": bp}})
+}
+
+/// C09: the real derivation against the harness's own composition (written from the ibc-hooks specification).
+pub fn derive(m: &HashMap<String, String>) -> Value {
+    let channel = m.get("channel").cloned().unwrap_or_else(|| "channel-123".into());
+    let who = Who::new(false);
+    let sender = m.get("sender").cloned().unwrap_or_else(|| who.staker.clone());
+    let prefix = m.get("prefix").cloned().filter(|p| !p.is_empty()).unwrap_or_else(|| "osmo".into());
+    let real = staking::helpers::derive_intermediate_sender(&channel, &sender, &prefix);
+    let spec = std::panic::catch_unwind(|| addr::hook_sender(&channel, &sender, &prefix)).ok();
+    let reproduced = match (&real, &spec) {
+        (Ok(a), Some(b)) => a != b,
+        (Err(_), Some(_)) => true,
+        _ => false,
+    };
+    json!({"reproduced": reproduced, "real": format!("{real:?}"), "spec": spec, "inputs": {"channel": channel, "sender": sender, "prefix": prefix}})
 }
